@@ -352,6 +352,10 @@ impl DiscretEndpoint {
 
         let len = event_receiv.read_u32().await?;
         let len: usize = len.try_into().unwrap();
+        //the length comes from the peer: refuse it before allocating
+        if len > max_buffer_size {
+            return Err(Error::MsgDeserialisationToLong(len, max_buffer_size));
+        }
         let mut buf = vec![0; len];
 
         event_receiv.read_exact(&mut buf[0..len]).await?;
